@@ -204,6 +204,8 @@ fn qualify(raw_labels: Vec<String>) -> Vec<String> {
 		if let Some(i) = l.find('[') {
 			last_file = l[i + 1..l.len() - 1].to_string();
 			labels.push(l);
+		} else if !l.starts_with("lmdb:") {
+			labels.push(l);
 		} else {
 			labels.push(format!("{}(after:{})", l, last_file));
 		}
@@ -227,6 +229,7 @@ fn state_changing(label: &str) -> bool {
 		|| label.starts_with("aof.replace:between")
 		|| label.starts_with("aof.replace:after-rename")
 		|| label.starts_with("lmdb:after-commit")
+		|| label.starts_with("txhashset_replace:")
 }
 
 struct Ctx<'a> {
@@ -467,18 +470,17 @@ fn run_scenario(kit: &Kit, sc: &Scenario, work: &str, exe: &Path, gen_path: &str
 	};
 	let ref_files = mmr_files(&format!("{}{}", refdir, sc.sub));
 	let real_steps = labels.len();
-	// state sync: `txhashset_replace` (remove the old txhashset directory, rename the sandbox over
-	// it) has no crash points of its own; its intermediate states are produced here from the state
-	// of a process killed right after the LMDB commit that precedes it
+	// state sync: `txhashset_replace` has real crash points after the removal of the old txhashset
+	// directory and after the rename of the sandbox; the state of a removal under way (directory
+	// half removed) is produced here by hand from the state of a process killed right after the
+	// LMDB commit that precedes it (label `emu.`)
 	let zip_commit = if sc.kind == "zip" {
 		labels.iter().rposition(|l| l.starts_with("lmdb:after-commit(after:kernel/pmmr_prun.bin)")).map(|i| i + 1)
 	} else {
 		None
 	};
 	if zip_commit.is_some() {
-		for l in ["emu.replace:clean-partial[txhashset]", "emu.replace:after-clean[txhashset]", "emu.replace:after-rename[txhashset]"] {
-			labels.push(l.to_string());
-		}
+		labels.push("emu.replace:clean-partial[txhashset]".to_string());
 	}
 	let ids: Vec<String> = sc.input.iter().map(|i| format!("b{}", i)).collect();
 	out.push(format!(
@@ -521,15 +523,8 @@ fn run_scenario(kit: &Kit, sc: &Scenario, work: &str, exe: &Path, gen_path: &str
 			.unwrap_or(-1);
 		if emu > 0 && code == 86 {
 			let ts = format!("{}{}/txhashset", dir, sc.sub);
-			if emu == 1 {
-				let _ = std::fs::remove_dir_all(format!("{}/output", ts));
-				let _ = std::fs::remove_file(format!("{}/kernel/pmmr_data.bin", ts));
-			} else {
-				let _ = std::fs::remove_dir_all(&ts);
-			}
-			if emu == 3 {
-				let _ = std::fs::rename(format!("{}/tmp/txhashset", dir), &ts);
-			}
+			let _ = std::fs::remove_dir_all(format!("{}/output", ts));
+			let _ = std::fs::remove_file(format!("{}/kernel/pmmr_data.bin", ts));
 		}
 		return code;
 		#[allow(unreachable_code)]
